@@ -371,6 +371,10 @@ impl WriteHalf {
         }
 
         if !self.flow_control.try_acquire() {
+            // No credit will ever come back once the connection was reset.
+            if self.is_reset() {
+                return Err(io::Error::new(io::ErrorKind::BrokenPipe, "Broken pipe"));
+            }
             return Err(io::Error::new(
                 io::ErrorKind::WouldBlock,
                 "send buffer full",
@@ -396,8 +400,20 @@ impl WriteHalf {
         if self.flow_control.has_credits() {
             return Poll::Ready(Ok(()));
         }
+        if self.is_reset() {
+            return Poll::Ready(Err(io::Error::new(
+                io::ErrorKind::BrokenPipe,
+                "Broken pipe",
+            )));
+        }
         self.flow_control.register_waker(cx.waker().clone());
         Poll::Pending
+    }
+
+    /// The stream socket is removed from the host when the peer resets the
+    /// connection.
+    fn is_reset(&self) -> bool {
+        World::current(|world| !world.current_host().tcp.has_stream(*self.pair))
     }
 
     fn poll_write_priv(&self, cx: &mut Context<'_>, buf: &[u8]) -> Poll<Result<usize>> {
@@ -513,6 +529,11 @@ impl BidiFlowControl {
             read: self.write,
         }
     }
+
+    /// Wake the local writer if it is parked waiting for credits.
+    pub(crate) fn wake_writer(&self) {
+        self.write.wake();
+    }
 }
 
 /// End-to-end flow control for a single TCP stream direction.
@@ -541,6 +562,12 @@ impl FlowControl {
 
     fn release(&self) {
         self.credits.fetch_add(1, Ordering::Release);
+        if let Some(waker) = self.waker.lock().unwrap().take() {
+            waker.wake();
+        }
+    }
+
+    fn wake(&self) {
         if let Some(waker) = self.waker.lock().unwrap().take() {
             waker.wake();
         }
